@@ -379,6 +379,7 @@ for _k, _v in ROUND9.items():
 # sentences added in the tenth round of seeding
 ROUND10 = {
     "C01": "The stage the producers/subjects partition measures 'same stage' from is derived from the component itself, never from the controller's state.",
+    "C02": "A component enters comp_done only where its final state has been observed (single-writer obligation shared with C01).",
     "C05": "The previous instance of a loop-carried producer is named from the iteration number alone (the format is not the fallback of a lookup).",
     "C06": "A helper whose result keys the table of known environments puts the printed form of the values into the key (1 == True must not merge environments).",
     "C07": "instance() stores a component's variables with every component-level layer of get_component_variables on (the override's variables included).",
